@@ -25,12 +25,13 @@ structure TraceRecord (y : DSymData) (bnds : List (List Nat)) (starts : List (Da
   all : ∀ i d, i ≤ 2 → 1 ≤ d → d ≤ y.size → y.dset.opU i d = d → (i, d) ∈ (recM y starts).map Dart.le
   ok : ∀ p ∈ starts, ValidDart y p.1 ∧ 0 < p.2 ∧ (phi y)^[p.2] p.1 = p.1
   bnds_perm : bnds.Perm (starts.map fun p => bestCyclic (seqOf y p.1 p.2))
+  pos : ∀ p ∈ starts, Positive y p.1
 
 theorem traceRecord_exists {y : DSymData} (h : ValidSym y) (hdim : y.dim = 2) (rep : Rep) :
     ∃ bnds starts, traceBoundary ⟨y, rep⟩ = .ok bnds ∧ TraceRecord y bnds starts := by
   obtain ⟨bnds, M, hb, hM, _, hall, result, starts, hbr, hst⟩ := traceBoundary_marked h hdim rep
   have hM' : M = recM y starts := hst.eqM
-  refine ⟨bnds, starts, hb, ⟨hM' ▸ hM, hM' ▸ hall, hst.ok, ?_⟩⟩
+  refine ⟨bnds, starts, hb, ⟨hM' ▸ hM, hM' ▸ hall, hst.ok, ?_, hst.pos⟩⟩
   rw [hbr, ← hst.res]
   exact sortDesc_perm _
 
